@@ -268,6 +268,18 @@ def check(prop, tier, seed, nworkers, scale):
         summaries += s2
         crashes += c2
 
+    determinism = None
+    if tier == "thorough":
+        # determinism self-check on a sample: the same 600 run indices executed twice, in
+        # separate processes and with different worker counts, must produce identical event logs
+        sigs = []
+        for nw in (2, 5):
+            s3, c3, h3, _ = run_workers(prop, seed, tier, 600, nw, BIN, [], stall_s)
+            sigs.append((len(c3), tuple(sorted(h3)), json.dumps(merge_counters(s3), sort_keys=True)))
+        determinism = sigs[0] == sigs[1]
+        if not determinism:
+            die("determinism self-check failed: the same seeds produced different event logs in two executions")
+
     violations = []  # (class, signature, detail, replay)
     for c in crashes:
         conf = confirm_crash(prop, seed, tier, c, BIN, c["extra"], stall_s, engine=c["engine"])
@@ -362,6 +374,7 @@ def check(prop, tier, seed, nworkers, scale):
             "components_real": real,
             "components_stub": stub,
             "workers": nworkers,
+            "determinism_selfcheck": ("identical event logs for 600 run indices executed twice with 2 and 5 workers" if determinism else "quick tier: not run (see `run.py selfcheck`)"),
             "shuttle_scripts": shuttle_scripts,
             "shuttle_schedules_explored": counters.get("shuttle.iterations-random", 0) + counters.get("shuttle.iterations-pct", 0),
             "worker_crashes": len(crashes),
